@@ -206,9 +206,9 @@ MONITORED = [
     FMon("quant", lambda r, t: "%d" % r.choice([2, 4, 8, 16]), _u, merge=True, query_mutates=True),
     FMon("quantstr", lambda r, t: "%d" % r.choice([2, 4, 8, 16]), _u, merge=True, query_mutates=True),
     FMon("fistr", lambda r, t: (lambda m: "%d %d" % (m, r.randrange(3, m + 1)))(r.choice([3, 3, 4, 5])), _u, merge=True, universe=(6, 12, 40, 200)),
-    FMon("varopt", lambda r, t: "%d" % r.choice([4, 8, 16]), _u, reset=True, known=("upd-on-deserialized",)),
+    FMon("varopt", lambda r, t: "%d" % r.choice([4, 8, 16]), _u, reset=True, known=("upd-on-deserialized", "reset-on-deserialized")),
     FMon("vou", lambda r, t: "%d" % r.choice([4, 8, 16]), lambda r, st: "%d %d" % (r.randrange(500), r.randrange(1, 30)), reset=True,
-         copy_assign=False, known=("upd-on-deserialized", "query")),
+         copy_assign=False, known=("upd-on-deserialized", "reset-on-deserialized", "query")),
     FMon("ebpps", lambda r, t: "%d" % r.choice([3, 6, 12]), _u, merge=True, reset=True),
     FMon("hll", lambda r, t: "%d %d %d" % (r.choice([4, 5, 7, 8]), r.randrange(3), r.randrange(2)), lambda r, st: "%d %d" % (r.randrange(100), r.choice([1, 1, 3, 40, 300])), reset=True,
          known=("cassign-self", "cassign-to-moved-from")),
@@ -224,7 +224,7 @@ MONITORED = [
 MONITORED_NAMES = [f.name for f in MONITORED]
 
 
-def gen_history(rng, tier, fams, nops):
+def gen_history(rng, tier, fams, nops, cut_ok=False):
     """one lifecycle history over objects of the given families (>= 3 live objects most of the time)."""
     h = ["alloc " + rng.choice(["shared", "shared", "distinct"])]
     live = {}      # id -> dict(fam, usable, st, deser)
@@ -319,14 +319,18 @@ def gen_history(rng, tier, fams, nops):
             emit(fa.query(rng, a), "query", fa)
         elif r < 0.92:
             h.append("ser %d" % a)
-        elif r < 0.95 and fa.serde and len(live) < 9:
+        elif r < 0.945 and fa.serde and len(live) < 9:
             d = nxt[0]; nxt[0] += 1
             h.append("serde %d %d" % (a, d))
             live[d] = dict(fam=fa, usable=True, st=live[a]["st"], deser=True)
+        elif r < 0.95 and fa.serde and cut_ok:
+            # a truncated image: when the reader throws it must release everything it had allocated (deleters).
+            # (Whether every truncated image is rejected, and rejected without reading out of bounds, is C11.)
+            emit("serdecut %d %d %d" % (a, nxt[0] + 100, rng.choice([10, 35, 50, 65, 80, 90, 97])), "serdecut", fa)
         elif r < 0.96 and fa.trim:
             h.append("trim %d" % a)
         elif r < 0.97 and fa.reset:
-            h.append("reset %d" % a)
+            emit("reset %d" % a, "reset-on-deserialized" if live[a]["deser"] else None, fa)
         else:
             d = rng.choice(list(live))
             h.append("destroy %d" % d)
@@ -353,6 +357,10 @@ def gen_history(rng, tier, fams, nops):
             line = fam.query(rng, us[0])
         elif trig == "upd-on-deserialized" and de:
             line = fam.upd(rng, de[0], live[de[0]]["st"])
+        elif trig == "reset-on-deserialized" and de:
+            line = "reset %d" % de[0]
+        elif trig == "serdecut" and us:
+            line = "serdecut %d %d %d" % (us[0], nxt[0] + 100, rng.choice([35, 50, 65, 80, 90]))
         if line:
             h.append(line)
             return h
@@ -390,19 +398,21 @@ def life_oracle(hist, out, query_mutates=lambda oid: True):
             if len(ws) > 1 and ws[1] == "sanitizer-report":
                 # FATAL sanitizer-report <op> fam=<f> [self] [to-moved-from] [on-deserialized]
                 fam = [t.split("=")[1] for t in ws if t.startswith("fam=")]
-                extra = [t for t in ws[3:] if not t.startswith("fam=")]
+                extra = [t for t in ws[3:] if not t.startswith("fam=") and t != "on-deserialized"]
                 bad.append((":".join(["sanitizer", fam[0] if fam else "?", ws[2] if len(ws) > 2 else "?"] + extra), o[:200], i))
             else:
                 kind = [t.split("=")[1] for t in ws if t.startswith("kind=")]
                 fam = fam_of.get(int(w[1])) if len(w) > 1 and w[1].isdigit() else (w[1] if w[0] == "new" else None)
-                bad.append(("fatal:" + (ws[1] if len(ws) > 1 else "?") + (":" + kind[0] if kind else "") + (":" + fam if fam and not kind else ""), o[:200], i))
+                bad.append(("fatal:" + (ws[1] if len(ws) > 1 else "?") + (":" + kind[0] if kind else "") + (":" + fam if fam else ""), o[:200], i))
             break
         if w[0] == "end":
             m = dict(t.split("=") for t in o.split()[1:] if "=" in t)
-            if m.get("blocks") != "0" or m.get("items") != "0":
-                bad.append(("not-empty-after-last-destroy", o[:160], i))
-            if m.get("allocs") != m.get("frees") or m.get("ctors") != m.get("dtors"):
-                bad.append(("ledger-unbalanced", o[:160], i))
+            if m.get("objs") == "0":
+                # the history destroyed every object itself: nothing may remain
+                if m.get("blocks") != "0" or m.get("items") != "0":
+                    bad.append(("not-empty-after-last-destroy", o[:160], i))
+                if m.get("allocs") != m.get("frees") or m.get("ctors") != m.get("dtors"):
+                    bad.append(("ledger-unbalanced", o[:160], i))
             continue
         if o.strip() == "cfg":
             continue
@@ -414,7 +424,8 @@ def life_oracle(hist, out, query_mutates=lambda oid: True):
                         t = "default-allocator:%s:%s" % (fam, w[0])
                     bad.append((t, "%s: %s" % (l, t), i))
         if o.startswith("bad"):
-            bad.append(("harness-rejected-op", l + " -> " + o[:80], i))
+            # the harness rejected the op (unknown object, moved-from operand ...): nothing was executed.  Generated
+            # histories do not contain such ops (see `LifePart.generate`); shrunk replays may.
             continue
         d = parse_h(o)
         if d is None:
@@ -423,7 +434,7 @@ def life_oracle(hist, out, query_mutates=lambda oid: True):
         cur = images_of(o) or {}
         cur_live = (sorted(lst(d.get("L"))), vpart(o).split(" L=")[-1] if " L=" in vpart(o) else "", d.get("O"))
         if d["status"] == "throw":
-            expect = l.startswith("serde") and len(w) > 3 or w[0] == "new" and "bad" in w
+            expect = w[0] == "serdecut"
             if not expect:
                 desc = [p for p in o.split(" | ") if p.startswith("T ")]
                 dw = desc[0].split()[1:] if desc else [w[0]]
@@ -431,7 +442,7 @@ def life_oracle(hist, out, query_mutates=lambda oid: True):
                 extra = [t for t in dw[1:] if not t.startswith("fam=")]
                 bad.append((":".join(["unexpected-throw", fam[0] if fam else "?", dw[0]] + extra), l, i))
             # a throwing operation must not leak and must not leave stray objects
-            if prev_live is not None and cur_live != prev_live and w[0] in ("new", "serde", "copy"):
+            if prev_live is not None and cur_live != prev_live and w[0] in ("new", "serde", "serdecut", "copy"):
                 bad.append(("leak-on-throw:" + w[0], "%s: before %s after %s" % (l, prev_live, cur_live), i))
             img = cur
             prev_live = cur_live
@@ -468,6 +479,12 @@ def life_oracle(hist, out, query_mutates=lambda oid: True):
                 bad.append(("independence:image-changed-by-op-on-another-object", "%s changed object %d" % (l, k), i))
         img = cur
         prev_live = cur_live
+    # after the last op the harness destroys what is left and the leak checker runs
+    for o in out[len(hist):]:
+        if o.startswith("FATAL"):
+            ws = o.split()
+            bad.append(("at-exit:" + ":".join(ws[1:3]), o[:200], len(hist) - 1))
+            break
     return bad
 
 
@@ -489,15 +506,10 @@ class LifePart(Part):
         hs = []
         for i in range(n):
             nops = rng.choice([40, 120, 300]) if tier == "quick" else rng.choice([100, 400, 1200])
-            hs.append(gen_history(rng, tier, self.fams, nops))
+            hs.append(gen_history(rng, tier, self.fams, nops, cut_ok=not self.compare_model))
         return hs
 
     def oracle(self, hist, impl_out):
-        kinds = {}
-        for l in hist:
-            w = l.split()
-            if w[0] == "new":
-                kinds[int(w[2])] = w[1]
         return life_oracle(hist, impl_out)
 
     def nontrivial_key(self, hist, impl_out):
